@@ -12,8 +12,17 @@ UNIVERSE += [(100 + i, 101 + i) for i in range(450)]       # large sets: positio
 ENC = {e: i + 1 for i, e in enumerate(UNIVERSE)}
 
 
+class _Enc:
+    """universe index of an element; 0 for anything else (including objects that cannot be hashed)"""
+    def get(self, e, d=0):
+        try:
+            return ENC.get(e, d)
+        except TypeError:
+            return d
+
+
 def _project(ds, usize):
-    enc = ENC
+    enc = _Enc()
     ev = {"iter": [], "len": -1, "contains": [], "iter_outer": [], "inner_full": True, "obs_raised": ""}
     try:
         it = [enc.get(e, 0) for e in list(ds)]
@@ -53,6 +62,10 @@ def execute(case):
                 ds.add(UNIVERSE[arg - 1])
             elif op == "remove":
                 ds.remove(UNIVERSE[arg - 1])
+            elif op == "addbad":
+                # a tuple that cannot be hashed: a plain set raises TypeError and stays as it was (DrawSet!AddUnhashable)
+                ds.add((UNIVERSE[arg - 1][0], [arg]))
+                ev["accepted"] = True
             elif op == "draw":
                 orc = Oracle()
                 if arg >= 0:
@@ -64,7 +77,7 @@ def execute(case):
                         res = orc.run_seeded(rng.randrange(1 << 30), ds.draw)
                 else:
                     res = orc.run_seeded(rng.randrange(1 << 30), ds.draw)
-                ev["res"] = ENC.get(res, 0)
+                ev["res"] = _Enc().get(res, 0)
             elif op == "drawall":
                 # the whole decision tree of one draw(): exact probability of every result.  How many draws the implementation
                 # uses, and of which arity, is its own business; a tree that does not end (rejection sampling) is not decided
@@ -74,17 +87,30 @@ def execute(case):
                     from fractions import Fraction
                     tot, last = {}, None
                     for res, trail, w in orc.enumerate(ds.draw, max_leaves=4 * len(ds) + 16):
-                        ev["results"].append(ENC.get(res, 0))
+                        ev["results"].append(_Enc().get(res, 0))
                         ev["arity"].append(trail[0][1] if trail else 0)
-                        tot[ENC.get(res, 0)] = tot.get(ENC.get(res, 0), Fraction(0)) + w
+                        tot[_Enc().get(res, 0)] = tot.get(_Enc().get(res, 0), Fraction(0)) + w
                         last = trail
                     if last is not None and Oracle.next_prefix(last) is not None:
                         raise OracleMismatch("the decision tree of draw() has more than %d leaves" % (4 * len(ds) + 16))
                     ev["pm"] = [[k, int(v.numerator), int(v.denominator)] for k, v in sorted(tot.items())]
                 except OracleMismatch:
-                    ev["op"] = "observe"   # randomness not enumerable: clause not decided
-                    ev["undecided"] = True
-                    ev["results"], ev["arity"] = [], []
+                    # draw() uses random(): no exact law, but on a fine aligned grid (8 cells per member) every member of a
+                    # uniform draw owns at least 7 midpoints, so "returns a member" and "every member can be drawn" stay decidable
+                    ev["results"], ev["arity"], ev["pm"] = [], [], []
+                    try:
+                        orc2 = Oracle()
+                        orc2.max_draws = 64
+                        for res, trail, w in orc2.enumerate(ds.draw, grid=8 * max(1, len(ds)), max_leaves=8 * len(ds) + 16):
+                            ev["results"].append(_Enc().get(res, 0))
+                            last = trail
+                        if ev["results"] and Oracle.next_prefix(last) is not None:
+                            raise OracleMismatch("too many leaves")
+                        ev["op"] = "drawsupport"
+                    except (OracleMismatch, IndexError, KeyError):
+                        ev["op"] = "observe"   # randomness not enumerable: clause not decided
+                        ev["undecided"] = True
+                        ev["results"], ev["arity"] = [], []
                 except (IndexError, KeyError):
                     pass                   # drawall on an empty set: no leaves
             elif op == "observe":
@@ -92,6 +118,8 @@ def execute(case):
         except Exception as ex:  # logged on the error path too
             ev["raised"] = type(ex).__name__
         ev.update(_project(ds, usize))
+        if ev.pop("accepted", False):
+            break          # the structure took an unhashable tuple without raising: outside what the set model describes, not judged further
         events.append(ev)
     return {"case": case, "events": events}
 
@@ -101,7 +129,11 @@ def _random_case(rng, n_ops, usize, kind="random"):
     present = set()
     for _ in range(n_ops):
         x = rng.random()
-        if x < 0.35:
+        if ops and ops[-1]["op"] in ("addbad", "remove") and rng.random() < 0.35:
+            ops.append({"op": "drawall", "arg": 0})      # can every member still be drawn right after a (possibly refused) call?
+        if x < 0.03:
+            ops.append({"op": "addbad", "arg": rng.randrange(usize) + 1})
+        elif x < 0.35:
             a = rng.randrange(usize) + 1
             ops.append({"op": "add", "arg": a}); present.add(a)
         elif x < 0.65:
@@ -155,9 +187,9 @@ def run(chk):
     thorough = chk.tier == "thorough"
     apalache_inductive(chk)
     # ---- MC: all histories (the model is finite: no depth bound needed)
-    chk.mc("DrawSet", "MC_DrawSet.cfg", required=["Add", "Remove", "RemoveAbsent", "DrawAny", "Observe"])
+    chk.mc("DrawSet", "MC_DrawSet.cfg", required=["Add", "Remove", "RemoveAbsent", "AddUnhashable", "DrawAny", "Observe"])
     if thorough:
-        chk.mc("DrawSet", "MC_DrawSet_big.cfg", required=["Add", "Remove", "RemoveAbsent", "DrawAny", "Observe"])
+        chk.mc("DrawSet", "MC_DrawSet_big.cfg", required=["Add", "Remove", "RemoveAbsent", "AddUnhashable", "DrawAny", "Observe"])
     chk.mc("DrawSet", "MC_DrawSet_deviant.cfg", expect_violation="C20_Representation")
     # ---- CASES: spec behaviours replayed into the real class
     depth = 5 if thorough else 4
